@@ -293,7 +293,10 @@ def replay(case):
     name, cl, axiom = p["metric"], p["class"], p["axiom"]
     if p.get("negzero"):
         a, b = np.array(p["x"], dtype=float), np.array(p["y"], dtype=float)
-        got, want = float(D.DISTANCES[name](a.copy(), b.copy())), float(D.DISTANCES[name](a + 0.0, b + 0.0))
+        try:
+            got, want = float(D.DISTANCES[name](a.copy(), b.copy())), float(D.DISTANCES[name](a + 0.0, b + 0.0))
+        except Exception:
+            got, want = float("nan"), 0.0
         if not ((got == want) or (got != got and want != want) or abs(got - want) <= 1e-12 * max(1.0, abs(want))):
             v = make_violation(name, cl, [p["x"], p["y"]], "finite", 0, 1, None,
                                "with a negative zero among the components the value is %r, with a positive "
